@@ -623,6 +623,104 @@ pub fn typed_probe(r: &crate::gen::Rendered, t: &mut Tape, st: &mut Stats) -> Re
     Ok(())
 }
 
+/// enums with tuple variants written as a table with numeric keys (`{ 0 = .., 1 = .. }`): an entry whose
+/// key is not the expected index is the offending item, and the error has to point into that entry
+fn enum_tuple_probe(rep: &mut Report) {
+    #[derive(serde::Deserialize, Debug)]
+    #[allow(dead_code)]
+    enum Shape {
+        Point(i64, i64),
+        Tri(i64, i64, i64),
+        Quad(i64, i64, i64, i64),
+    }
+    #[derive(serde::Deserialize, Debug)]
+    #[allow(dead_code)]
+    struct Doc {
+        shape: Shape,
+    }
+    let variants = [("Point", 2usize), ("Tri", 3), ("Quad", 4)];
+    let bad_keys = ["x", "7", "\"é\"", "\"0 \"", "-1"];
+    let pre = ["", "# é comment\n", "\n\n", "other = \"日本\"\n"];
+    for (vi, (vname, n)) in variants.iter().enumerate() {
+        for bad_at in 0..*n {
+            for (bi, bad) in bad_keys.iter().enumerate() {
+                for form in 0..3 {
+                    let lead = pre[(vi + bad_at + bi + form) % pre.len()];
+                    let mut text = String::from(lead);
+                    // (start of the offending key, end of its value)
+                    let mut entry = 0..0;
+                    match form {
+                        0 => {
+                            text.push_str(&format!("[shape.{vname}]\n"));
+                            for i in 0..*n {
+                                let k = if i == bad_at { bad.to_string() } else { i.to_string() };
+                                let st = text.len();
+                                text.push_str(&format!("{k} = {i}"));
+                                if i == bad_at {
+                                    entry = st..text.len();
+                                }
+                                text.push('\n');
+                            }
+                        }
+                        _ => {
+                            text.push_str(if form == 1 { "shape = { " } else { "[shape]\n" });
+                            text.push_str(&format!("{vname} = {{ "));
+                            for i in 0..*n {
+                                let k = if i == bad_at { bad.to_string() } else { i.to_string() };
+                                if i > 0 {
+                                    text.push_str(",  ");
+                                }
+                                let st = text.len();
+                                text.push_str(&format!("{k} = {i}"));
+                                if i == bad_at {
+                                    entry = st..text.len();
+                                }
+                            }
+                            text.push_str(if form == 1 { " } }\n" } else { " }\n" });
+                        }
+                    }
+                    rep.stats.eval();
+                    rep.stats.class("typed.enum-tuple-variant-key");
+                    rep.stats.nontrivial(fnv64(text.as_bytes()));
+                    let case = json!({"text": text});
+                    for (who, res) in [
+                        ("toml::from_str", toml::from_str::<Doc>(&text).map(|_| ()).map_err(|e| (e.message().to_string(), e.span(), e.to_string()))),
+                        ("toml_edit::de::from_str", toml_edit::de::from_str::<Doc>(&text).map(|_| ()).map_err(|e| (e.message().to_string(), e.span(), e.to_string()))),
+                    ] {
+                        let f = match res {
+                            Ok(()) => Some(format!("{who}: a tuple variant written with the key {bad} at index {bad_at} was accepted")),
+                            Err((msg, span, rendered)) => {
+                                if msg.trim().is_empty() {
+                                    Some(format!("{who}: empty message"))
+                                } else {
+                                    match span {
+                                        None => Some(format!("{who}: no span; message {msg:?}")),
+                                        Some(sp) if !(entry.start <= sp.start && sp.end <= entry.end) => Some(format!("{who}: error span {sp:?} is not inside the offending entry {entry:?} ({:?}); message {msg:?}", &text[entry.clone()])),
+                                        Some(sp) => {
+                                            let (l, c) = expected_pos(&text, sp.start);
+                                            let first = rendered.lines().next().unwrap_or("").to_string();
+                                            if first != format!("TOML parse error at line {l}, column {c}") {
+                                                Some(format!("{who}: rendered {first:?} for span start {} = line {l}, column {c}", sp.start))
+                                            } else {
+                                                None
+                                            }
+                                        }
+                                    }
+                                }
+                            }
+                        };
+                        if let Some(m) = f {
+                            let fl = Failure::new("typed-span", format!("{m}\n---\n{text}---"), case.clone());
+                            rep.violation("enum-tuple", None, &fl);
+                            return;
+                        }
+                    }
+                }
+            }
+        }
+    }
+}
+
 pub fn run(args: Args) -> ! {
     let mut rep = Report::new("C15", args.tier, args.seed);
     rep.rule = "rejected inputs: labelled faults (optionally behind multi-byte characters), nesting beyond the recursion limit in every combination, stray multi-byte characters, truncations, byte/line mutants of generated documents; exhaustive truncation of every fixture at every byte; for each error of DocumentMut, ImDocument, toml::from_str and toml_edit::de::from_str: non-empty message, span inside the document on char boundaries, rendering does not panic, `line L, column C` equals an independent character-based computation from span.start, echoed line is that line. Typed errors: a seed type walks to a chosen path of a valid document and asks for the wrong type there, each node on the way asked for plainly or through deserialize_option / deserialize_newtype_struct / deserialize_struct as chosen by the tape; with text the span must equal the offending item's source range (by construction), without text (a DocumentMut, or a Value cloned out of a parsed document) the rendering ends with the key path. non-trivial = error position not 0 and (multi-byte character before it on the line or at end of input); distinct by text".into();
@@ -675,6 +773,7 @@ pub fn run(args: Args) -> ! {
     if let Some((_, f)) = fail {
         rep.violation("fixtures", None, &f);
     }
+    enum_tuple_probe(&mut rep);
     let w = workers();
     let run = run_tape("C15.invalid", &prop_invalid, 2000, args.tier.pick(400_000, 6_000_000), args.seed, w);
     finish_run(&mut rep, "invalid", run);
